@@ -44,6 +44,10 @@ pub fn take_last_panic() -> String {
 /// with digits removed (so that differing indexes do not make differing signatures).
 pub fn panic_site(record: &str) -> String {
   let mut s = record.to_string();
+  if let Some(pos) = s.find("/target/repo-copy/") {
+    // the mirror of the repository the simulator is built from
+    s = s[pos + "/target/repo-copy/".len()..].to_string();
+  }
   for root in [std::env::var("VERIF_REPO").unwrap_or_else(|_| "/repo".to_string()), "/repo".to_string()] {
     s = s.replace(&format!("{}/", root), "");
   }
